@@ -14,7 +14,7 @@ setsockopt getsockopt poll ppoll select epoll_create1 epoll_ctl epoll_wait event
 timerfd_settime clock_gettime nanosleep usleep sleep fopen""".split()
 
 MCX = ["mcx/mcx.c"]
-SHIM = ["envshim/envshim.c"]
+SHIM = ["envshim/envshim.c", "harness/detrand.c"]
 
 RUN_DIR = os.path.join(build.BUILD, "run")
 
@@ -115,6 +115,9 @@ def merge_into(check, res, prop_prefixes, label, build_variant="plain"):
         sig = v["signature"]
         if v.get("crash"):
             sig = refine_crash_signature(v)
+        if sig.startswith("internal/"):
+            check.broke("%s: harness-internal failure %s: %s" % (label, sig, v["text"]))
+            continue
         if not any(sig.startswith(p) for p in prop_prefixes):
             continue
         if not v.get("reproduced"):
